@@ -545,7 +545,7 @@ func (fr *frame) evalSliceExpr(st *State, x *ast.SliceExpr) *Value {
 		// NOTE: capacity is not modelled; hi <= len is demanded (stricter than Go's hi <= cap).
 		fr.fc.oblige(st, fr, "safe", fmt.Sprintf("safe.slice#%d", fr.ords[x]), And(Le(mkInt(0), lo), Le(lo, hi), Le(hi, base.Len)))
 		if lo.Kind == KInt && lo.Int.Sign() == 0 {
-			return &Value{K: VSlice, T: bt, Arr: base.Arr, Len: hi}
+			return &Value{K: VSlice, T: bt, Arr: base.Arr, Len: hi, Cap: base.capTerm()}
 		}
 		// fresh view: contents copied (aliasing of writes through the view is not modelled)
 		nr := st.newRef("subslice")
